@@ -89,6 +89,10 @@ func checkJSONEnc(c *Ctx, prop string) {
 	}
 	runJSONGenerators(c, prop, jeGenerators(c, prop == "C10"), prop == "C10")
 	jeScenarios(c, prop)
+	if prop == "C02" {
+		// context fields of a lazily evaluated With must be on every line, whichever goroutine used the logger first
+		runLazyOnce(c, "C02/", func(k string) bool { return k == "lazy/context" })
+	}
 	c.Set("exhaustive", true)
 	c.Set("rule", "every behaviour of JsonEnc.tla inside each listed generator bound, each replayed with 2 (quick) / 4 (thorough) seeded concretisations, one benign and the rest hostile")
 }
